@@ -7,7 +7,8 @@
    1e-10.  Any Python exception = None.
    The model describes the tree WITH fixes/C14-step-last-sample.diff and fixes/C14-read-coeff.diff applied;
    the `_v0` definitions are the code as found (kept for the `_refuted` witnesses). *)
-From Coq Require Import List QArith Bool Arith String Ascii.
+From Coq Require Import String Ascii.
+From Coq Require Import List QArith Bool Arith.
 Import ListNotations.
 Open Scope Q_scope.
 
@@ -67,7 +68,7 @@ Fixpoint all_tlists (ps : list pulse) : list (list Q) :=
 Definition get_full_tlist (tol : Q) (ps : list pulse) : option (list Q) :=
   match all_tlists ps with
   | [] => None                                  (* `if not full_tlist: return None` *)
-  | tls => Some (dedup tol (uniq_sorted (qsort (concat tls))))
+  | tls => Some (dedup tol (uniq_sorted (qsort (List.concat tls))))
   end.
 
 (* ---------------------------------------------------------------------------------------- *)
